@@ -38,6 +38,13 @@ var c13Corpus = []c13Case{
 	{Env: []string{"e2"}, Tmpl: []string{`<%= for (k, v) in m { %>⟦1:<%= k %>=<%= v %>;⟧<% } %>`}},
 	{Env: []string{"e0", "e2"}, Tmpl: []string{`<%= for (v) in xs { %><%= v %>,<% } %>`, `<% let f = fn(a) { return a + n } %><%= f(1) %><%= partial("p_loop", {}) %>`, `<% contentFor("c") { %>[<%= lbl %>]<% } %><%= contentOf("c", {lbl: s}) %>`},
 		Hist: [][2]int{{0, 0}, {1, 1}, {0, 1}, {2, 0}, {1, 0}, {0, 0}, {2, 1}}},
+	// data that differ only in what the partial feeder serves / what a helper name is bound to
+	{Env: []string{"e0", "e0~b"}, Tmpl: []string{`[<%= partial("p_plain", {x: n}) %>]`, `<%= for (v) in xs { %><%= partial("p_nest", {y: v}) %><% } %>|<%= wrap() { %><%= up(s) %><% } %>`},
+		Hist: [][2]int{{0, 0}, {0, 1}, {1, 1}, {1, 0}, {0, 0}, {1, 1}, {0, 1}}},
+	// values the template builds from literals and then updates in place
+	{Env: []string{"e0"}, Tmpl: []string{`<% let q = [0, 0, "none"] %><% for (v) in xs { q[0] = q[0] + 1 } %><% q[2] = s %><%= q[0] %>,<%= q[2] %>`}},
+	{Env: []string{"e0"}, Tmpl: []string{`<% let g = {a: 0, b: "-"} %><% g["a"] = g["a"] + n %><% setv(g, "b", "x") %><%= g["a"] %>,<%= g["b"] %>`}},
+	{Env: []string{"e0"}, Tmpl: []string{`<%= for (v) in xs { %><% let q = [[0, 1], [2]] %><% let r = q[0] %><% r[1] = r[1] + v %><%= q[0][1] %>;<% } %>`}},
 }
 
 type c13Checker struct {
@@ -250,6 +257,25 @@ func (c *c13Checker) pair(src, env string) (string, bool) {
 			outs = fouts
 		}
 		site, _ := c.nondetSite(src, outs)
+		if !varies {
+			// 64 fresh parse + exec runs agree with each other: the pair is deterministic, and it is the repetition on
+			// one route (the same parsed program executed again) that changes the outcome
+			for _, route := range []string{"reexec", "lazy", "clone", "cache-warm", "fresh"} {
+				m := byRoute[route]
+				if len(m) < 2 && (m == nil || m[ref]) {
+					continue
+				}
+				var got []string
+				for k := range m {
+					if k != ref {
+						got = append(got, k)
+					}
+				}
+				sort.Strings(got)
+				c.fail(cs, "wrong-output", route+"-diverges", fmt.Sprintf("fresh parse + exec gives %s every time, but executions on route %s give %d different outcomes, e.g. %s", c13Short(ref), route, len(m), c13Short(got[0])))
+			}
+			return ref, false
+		}
 		c.fail(cs, "wrong-output", site, fmt.Sprintf("equal template and data gave %d different outcomes, e.g. %s vs %s", len(outs), c13Short(outs[0]), c13Short(outs[1])))
 		return ref, false
 	}
@@ -328,13 +354,32 @@ func (c *c13Checker) history(cs c13Case, ref map[[2]int]string) {
 	plush.CacheEnabled = true
 	plush.VerifCacheReset()
 	for pass, site := range []string{"history-diverges-cache-cold", "history-diverges-cache-warm"} {
-		_ = pass
 		for step, h := range cs.Hist {
 			if _, ok := ref[h]; !ok {
 				continue
 			}
 			src, env := cs.Tmpl[h[0]], cs.Env[h[1]]
-			o := safeCall(5*time.Second, func() (string, error) { return plush.Render(src, c13NewCtx(env)) })
+			held := ts[h[0]]
+			var o Obs
+			switch {
+			case pass == 1 && step%3 == 1:
+				// Parse + Exec (what BuffaloRenderer does): the template value the cache serves
+				o = safeCall(5*time.Second, func() (string, error) {
+					t, err := plush.Parse(src)
+					if err != nil {
+						return "", err
+					}
+					return t.Exec(c13NewCtx(env))
+				})
+			case pass == 1 && step%3 == 2 && held != nil:
+				// a template value parsed before the cache was switched on, and its clone, executed while it is on
+				if step%2 == 0 {
+					held = held.Clone()
+				}
+				o = c13Render(held, env)
+			default:
+				o = safeCall(5*time.Second, func() (string, error) { return plush.Render(src, c13NewCtx(env)) })
+			}
 			if got := c13Canon(o); got != ref[h] {
 				bad(site, step, h, got)
 				break
@@ -390,7 +435,7 @@ func (c *c13Checker) run(cs c13Case) {
 func init() {
 	oracles["C13"] = func(cfg Config) []*Report {
 		rep := NewReport("C13", "C13", cfg)
-		rep.Rule = "structured programs over text, output, let, assignment, if/else-if/else, for over slices/array literals/iterators/Go maps/hash literals, user functions, hash literals (1-8 entries; ~20% with a duplicate key, values tick()/fail()), arrays, index, field/method access, block helpers, partials (also nested and with layout), contentFor/contentOf, index assignment, break/continue; each (template, data) is run via fresh Parse, r re-Execs of one template, Clone, cache cold, cache warm; groups of 2-3 templates x 2 data sets additionally in an interleaved history with the cache off / cold / warm. These programs all parse; about 65% render without error, the rest fail at run time (unknown identifiers, index out of range, failing helpers, missing partials/blocks); in addition (first, on its own random stream) texts that do NOT parse: a generated program damaged in one place (a structural token dropped or doubled, truncation, dangling operator, a broken tag inserted before any tag or appended; damaged texts that still parse are discarded and damaged again), alone and in histories together with programs that parse; such a text is run via fresh parse, Render, repeated Exec / Parse / Clone of the template value handed back next to the error, a lazily parsed Template value and its clone, cache cold and warm, and must report the error of the fresh parse every time; non-trivial = contains a tag; distinct by case text"
+		rep.Rule = "structured programs over text, output, let, assignment, if/else-if/else, for over slices/array literals/iterators/Go maps/hash literals, user functions, hash literals (1-8 entries; ~20% with a duplicate key, values tick()/fail()), arrays, index, field/method access, block helpers, partials (also nested and with layout), contentFor/contentOf, index assignment, break/continue; each (template, data) is run via fresh Parse, r re-Execs of one template, Clone, cache cold, cache warm; groups of 2-3 templates x 2 data sets additionally in an interleaved history with the cache off / cold / warm (warm: Render, Parse + Exec of the cached template, and Exec of a template value / clone parsed before the cache was switched on, in turn); the second data set of a history is other plain data (1/2), the same plain data in a second theme - a partial feeder that serves other texts under the same partial names and helpers wrap/up bound to other functions - (1/4), or both (1/4); about 7% of the statements build a list or hash from literal constants (1-4 elements, also nested, 1/5 with one evaluated element), update it in place 1-3 times (element assignment, accumulation in a loop, a Go helper setv that stores into its argument, an index one past the end) and read it back. These programs all parse; about 65% render without error, the rest fail at run time (unknown identifiers, index out of range, failing helpers, missing partials/blocks); in addition (first, on its own random stream) texts that do NOT parse: a generated program damaged in one place (a structural token dropped or doubled, truncation, dangling operator, a broken tag inserted before any tag or appended; damaged texts that still parse are discarded and damaged again), alone and in histories together with programs that parse; such a text is run via fresh parse, Render, repeated Exec / Parse / Clone of the template value handed back next to the error, a lazily parsed Template value and its clone, cache cold and warm, and must report the error of the fresh parse every time; non-trivial = contains a tag; distinct by case text"
 		defer func() {
 			plush.CacheEnabled = false
 			plush.VerifCacheReset()
@@ -410,7 +455,7 @@ func init() {
 		}
 		ck.syntaxErrors(cfg)
 		rng := NewRng(cfg.Seed).Fork(13)
-		gen := c13NewGen(rng.Fork(1), c13GenOpt{})
+		gen := c13NewGen(rng.Fork(1), c13GenOpt{Wide: true})
 		groups := cfg.N(750, 2000)
 		start := time.Now()
 		budget := time.Duration(cfg.N(24, 280)) * time.Second
@@ -437,7 +482,18 @@ func init() {
 			}
 			cs.Env = []string{c13EnvNames[e1]}
 			if nt > 1 {
-				cs.Env = append(cs.Env, c13EnvNames[(e1+1+rng.Intn(len(c13EnvNames)-1))%len(c13EnvNames)])
+				e2 := c13EnvNames[(e1+1+rng.Intn(len(c13EnvNames)-1))%len(c13EnvNames)]
+				// the second data set: other plain data (1/2); the same plain data with the other feeder/helpers (1/4);
+				// both differ (1/4)
+				switch rng.Intn(4) {
+				case 0:
+					e2 = c13EnvNames[e1] + c13ThemeSep + "b"
+					rep.Tag("history-data-differ-in-functions-only")
+				case 1:
+					e2 += c13ThemeSep + "b"
+					rep.Tag("history-data-differ-in-functions-too")
+				}
+				cs.Env = append(cs.Env, e2)
 				k := rng.Range(4, 8)
 				for s := 0; s < k; s++ {
 					cs.Hist = append(cs.Hist, [2]int{rng.Intn(nt), rng.Intn(2)})
